@@ -27,7 +27,9 @@ def run(c):
               "changes, removals, duplicates, negative / oversized powers, unknown removals, emptying, total above the cap) and "
               "every transition of MC_Rotation (static-set rotation after arbitrary prefixes) is replayed from NewValidatorSet "
               "into the real types.ValidatorSet; compared: order, powers, every ProposerPriority, proposer, ok/error, "
-              "all-or-nothing, same result for the reversed change list; non-trivial = last step is a change set")
+              "all-or-nothing, same result for the reversed change list; non-trivial = last step is a change set.  Plus the "
+              "updateState clause: every chain of MC_CStateStore (change sets per block, no prunes) through the real "
+              "cstate.updateState, compared with Increment(Update(NextValidators, changes), 1) and the shift of the three sets")
     c.assumptions = ["TLC integers are 32-bit: priorities are compared at small powers; the cap clauses are replayed at a scale "
                      "where the specification's Cap equals MaxTotalVotingPower (ok/error and membership only, since rounding "
                      "is not scale-invariant)"]
@@ -56,4 +58,8 @@ def run(c):
         g = c.gotest("valset", "TestReplay", env=e, timeout=3000, tag="replay " + tag)
         c.absorb(g)
         os.remove(dump)
+    # the updateState clause (rotation advanced AFTER the block's change set is applied) lives in kai/state/cstate:
+    # chains of the cstore specification replayed into the real updateState (specs/cstore, harness/cstore)
+    from checks.C14 import run_updatestate
+    run_updatestate(c, th)
     c.exhaustive = True
